@@ -118,7 +118,7 @@ def _sig(i: int, j: int, n: int) -> str:
 QUERIES_NAMES = ["$.*", "$..*", "$[?@ == 1]", "$..[?@]", "$.*.*"]
 
 
-DOUBLES = ["-0", "a\\", "\\'", "'\\", '\\"', "/~", "~1", "\\\\", "\\n", "''", '""', "\"'", "01", "é\U0001F600", "\x01\\", " \\", "\\u"]
+DOUBLES = ["-0", "\x1b[", "\x0b\x1f", "a\\", "\\'", "'\\", '\\"', "/~", "~1", "\\\\", "\\n", "''", '""', "\"'", "01", "é\U0001F600", "\x01\\", " \\", "\\u"]
 NAMEPOOL = (SIGMA + DOUBLES)[: P.get("namepool", 40)]
 QI = P.get("qi", 0)
 
